@@ -715,6 +715,25 @@ var binTokens = map[string]token.Token{
 // needed when a table is evaluated on enumerated constants.
 func (u *U) foldCall(name string, args []*E, typ types.Type) *E {
 	switch name {
+	case "math.Min", "math.Max":
+		if len(args) == 2 && args[0].IsConst() && args[1].IsConst() {
+			a, b := constant.ToFloat(args[0].Const), constant.ToFloat(args[1].Const)
+			if a.Kind() == constant.Float && b.Kind() == constant.Float {
+				lt := constant.Compare(a, token.LSS, b)
+				if (name == "math.Min") == lt {
+					return u.ConstVal(a, typ)
+				}
+				return u.ConstVal(b, typ)
+			}
+		}
+	case "builtin.min", "builtin.max":
+		if len(args) == 2 && args[0].IsConst() && args[1].IsConst() {
+			lt := constant.Compare(args[0].Const, token.LSS, args[1].Const)
+			if (name == "builtin.min") == lt {
+				return args[0]
+			}
+			return args[1]
+		}
 	case "math/bits.OnesCount64", "math/bits.OnesCount32", "math/bits.OnesCount":
 		if len(args) == 1 {
 			if v, ok := args[0].IntVal(); ok {
